@@ -166,6 +166,9 @@ func (s *Sim) writeConfig(host, inc string, n int, cli bool) (cfgPath, lockfile 
 	if lvl == "" {
 		lvl = "error"
 	}
+	if v := os.Getenv("VERIF_LOGLEVEL"); v != "" {
+		lvl = v // debugging aid: mysync's own log in the kept run directory
+	}
 	logPath := filepath.Join(hd, fmt.Sprintf("mysync.%d.log", n))
 	if !s.verbose {
 		logPath = "/dev/null"
